@@ -125,6 +125,9 @@ class Source:
                     break
         try:
             index = [int(x) if float(x) == int(x) and abs(int(x)) < 2 ** 30 else -1 for x in fr.index.tolist()]
+            if getattr(self, "index_pos", None) is not None:
+                # the frame carries its own row labels: a label is recorded as its position in the source frame
+                index = [self.index_pos.get(x, -1) for x in index]
         except Exception:
             index = [-1] * n
         return {"cols": cols, "ids": ids, "index": index, "veq": bool(veq)}
@@ -140,10 +143,18 @@ def _write_file(df, path, kind, rg, sep):
         pq.write_table(pa.Table.from_pandas(df, preserve_index=False), path, row_group_size=max(1, int(rg)))
 
 
-def _base_reader(df, kind, rg, suffix, sep, name, column_map=None):
+def custom_labels(n):
+    """row labels of an in-memory frame that is a piece of a larger / filtered / re-sorted table: not 0..n-1"""
+    return [n + 7 + 2 * ((i * 5) % max(1, n)) if n % 5 else n + 7 + 2 * i for i in range(n)] if n else []
+
+
+def _base_reader(df, kind, rg, suffix, sep, name, column_map=None, custom_index=False):
     from mokapot.tabular_data import TabularDataReader, DataFrameReader, ColumnMappedReader
     if kind == "frame":
-        r = DataFrameReader(df.reset_index(drop=True))
+        fr = df.reset_index(drop=True)
+        if custom_index:
+            fr.index = custom_labels(len(fr))
+        r = DataFrameReader(fr)
         return ColumnMappedReader(r, column_map) if column_map is not None else r
     path = _dir() / (name + (suffix if kind == "csv" else ".parquet"))
     _write_file(df, path, kind, rg, sep)
@@ -195,7 +206,10 @@ def run_read(case):
     info = {"empty_sub": ""}
     try:
         if wrap in ("plain", "mapped", "computed", "computed_mapped"):
-            reader = _base_reader(df, base, rg, suffix, sep, "t", column_map=ren or None)
+            ci = bool(case.get("custom_index")) and base == "frame"
+            if ci:
+                src.index_pos = {lab: i for i, lab in enumerate(custom_labels(len(df)))}
+            reader = _base_reader(df, base, rg, suffix, sep, "t", column_map=ren or None, custom_index=ci)
             if "computed" in wrap:
                 reader = ComputedTabularDataReader(reader, KCOL, np.dtype("int64"),
                                                    lambda x: np.full(len(x), KVAL))
@@ -408,7 +422,7 @@ def random_reader_cases(rng, count, nmax):
                 "suffix": CSV_SUFFIXES[int(rng.integers(0, len(CSV_SUFFIXES)))],
                 "sep": "," if rng.random() < 0.2 else "\t",
                 "right": ["csv", "parquet", "frame"][int(rng.integers(0, 3))], "rg2": int(rng.integers(1, R + 3)),
-                "nan_fv": bool(i % 4 == 1)}
+                "nan_fv": bool(i % 4 == 1), "custom_index": bool(i % 3 == 2)}
         # request: None or a random ordered subset of the delivered names holding an identifying column
         df, phys, abc, _ = read_case_layout(case)
         ren = {abc[0]: abc[0].upper() + "_m", abc[2]: abc[2].upper() + "_m"} if "mapped" in case["wrap"] else {}
